@@ -20,7 +20,8 @@ PROP = dict(
                        "Comdex.C08.ids_consistent", "Comdex.C08.id_lists_ascending", "Comdex.C08.delId_binary_search", "Comdex.C08.delId_needs_ascending",
                        "Comdex.C08.lend_listed_exactly", "Comdex.C08.borrow_listed_exactly", "Comdex.C08.no_dangling_ids",
                        "Comdex.C08.auctionClose_books", "Comdex.C08.auctionBid_books", "Comdex.C08.auctionClose_needs_lend",
-                       "Comdex.C08.auctionClose_stuck_counterexample"],
+                       "Comdex.C08.auctionClose_stuck_counterexample",
+                       "Comdex.C08.reserve_ledger", "Comdex.C08.reserve_halves_step", "Comdex.C08.reserve_halves_drift_counterexample"],
     harness_tests=["TestC08"],
     monitors=["total_lend", "total_lend_orphaned", "total_borrowed", "total_stable", "ltv", "ltv_exact", "pool_funds", "pledged_safe",
               "ids_consistent", "reserve_ledger", "reserve_halves"],
